@@ -1,6 +1,7 @@
 package rt
 
 import (
+	"encoding/json"
 	"fmt"
 	"io"
 	"log"
@@ -62,3 +63,5 @@ func catch(f func()) (p string) {
 	f()
 	return ""
 }
+
+func jsonUnmarshal(raw []byte, v interface{}) error { return json.Unmarshal(raw, v) }
